@@ -11,6 +11,7 @@ import (
 	"os"
 	"reflect"
 	"sort"
+	"strings"
 	"unsafe"
 )
 
@@ -107,6 +108,48 @@ func vHavocRec(v reflect.Value, name string) {
 		}
 	default:
 		panic("vHavoc: unsupported kind " + v.Kind().String())
+	}
+}
+
+// vHavocFields havocs every field of the struct *p except the named ones.
+func vHavocFields(p interface{}, name string, skip string) {
+	v := reflect.ValueOf(p).Elem()
+	sk := map[string]bool{}
+	for _, x := range strings.Split(skip, ",") {
+		sk[x] = true
+	}
+	for i := 0; i < v.NumField(); i++ {
+		f := v.Type().Field(i)
+		if sk[f.Name] {
+			continue
+		}
+		switch f.Type.Kind() {
+		case reflect.Bool, reflect.Int, reflect.Int8, reflect.Int16, reflect.Int32, reflect.Int64,
+			reflect.Uint, reflect.Uint8, reflect.Uint16, reflect.Uint32, reflect.Uint64, reflect.Uintptr,
+			reflect.Struct, reflect.Array:
+			vHavocRec(v.Field(i), name+"."+f.Name)
+		case reflect.Map:
+			if f.Type.Key().Kind() != reflect.Uint16 {
+				continue
+			}
+			fv := v.Field(i)
+			if !fv.CanSet() {
+				fv = reflect.NewAt(fv.Type(), unsafe.Pointer(fv.UnsafeAddr())).Elem()
+			}
+			m := reflect.MakeMap(f.Type)
+			for k := 0; k < 2; k++ {
+				if vVal(fmt.Sprintf("%s.%s.p%d", name, f.Name, k)) == 0 {
+					continue
+				}
+				key := reflect.ValueOf(uint16(vVal(fmt.Sprintf("%s.%s.k%d", name, f.Name, k))))
+				val := reflect.New(f.Type.Elem()).Elem()
+				if val.Kind() == reflect.Uint8 {
+					val.SetUint(vVal(fmt.Sprintf("%s.%s.v%d", name, f.Name, k)))
+				}
+				m.SetMapIndex(key, val)
+			}
+			fv.Set(m)
+		}
 	}
 }
 
